@@ -136,6 +136,7 @@ func TargetOpen(in *Input, rec *Rec) {
 		// enter runs the per-entry API calls and returns the frame of e (explicit stack: the
 		// harness itself must not be the one that overflows on a deep tree)
 		enter := func(p string, e *estargz.TOCEntry) *frame {
+			rec.Beat()
 			onPath[e] = true
 			all = append(all, e)
 			byName := len(p) < 2048 // path based calls are quadratic on very deep trees
@@ -168,6 +169,7 @@ func TargetOpen(in *Input, rec *Rec) {
 					for _, o := range []int64{0, 1, e.Size - 1, e.Size, 5, -1} {
 						buf := make([]byte, 8)
 						f.ReadAt(buf, o)
+						rec.Beat()
 					}
 					f.ReadAt(make([]byte, 4096), 0)
 				}
@@ -274,6 +276,7 @@ func WalkMetadata(tag string, mr metadata.Reader, rec *Rec) (regs []uint32) {
 		k := fr.kids[fr.i]
 		fr.i++
 		budget--
+		rec.Beat()
 		mr.GetChild(fr.id, k.n)
 		attr, err := mr.GetAttr(k.id)
 		if err == nil && attr.Mode.IsRegular() && !seenReg[k.id] {
@@ -299,6 +302,7 @@ func WalkMetadata(tag string, mr metadata.Reader, rec *Rec) (regs []uint32) {
 				}
 				for _, o := range []int64{0, 1, attr.Size - 1, attr.Size, 5, -1} {
 					f.ReadAt(make([]byte, 8), o)
+					rec.Beat()
 				}
 				f.ReadAt(make([]byte, 4096), 0)
 			}
@@ -381,6 +385,7 @@ func ExerciseReader(tag string, mr metadata.Reader, regs []uint32, rec *Rec, pas
 				}
 				attr, _ := mr.GetAttr(id)
 				for _, lo := range readPlan(attr.Size) {
+					rec.Beat()
 					if _, err := ra.ReadAt(make([]byte, lo[0]), lo[1]); err != nil {
 						last = err
 						if os.Getenv("VERIF_C04_DEBUG") != "" {
@@ -409,6 +414,7 @@ func ExerciseReader(tag string, mr metadata.Reader, regs []uint32, rec *Rec, pas
 		rec.Try(fmt.Sprintf("%s.passthrough", tag), func() error {
 			var last error
 			for _, id := range regs {
+				rec.Beat()
 				ra, err := r2.OpenFile(id)
 				if err != nil {
 					continue
